@@ -1,9 +1,10 @@
 """C07 configuration for bin/check."""
 
 CFG = {
-        "tier_a": [],
+        "tier_a": ["Facts.subsume_guards"],
+        "props_files": ["C07", "C07src"],
         "model_targets": ["Extract/Model.vo"],
-        "proof_targets": ["Props/C07.vo"],
+        "proof_targets": ["Props/C07.vo", "Props/C07src.vo"],
         "harness": [{"bin": "h_extract", "prefix": "cases_extract"}],
         "trusted": [
             "hand-written Gallina model coq/Extract/Model.v of Extractor<u64> with TreeAdditiveCostModel (src/extract.rs: saturating cost fold, bellman_ford relaxation in scan order with rank stamps, save_best_parent_edge with the rank guard, reconstruct, extract_variants); tied to the code by the h_extract correspondence: same e-graph (constructor_enodes dump in scan order), same reported cost AND same extracted term (so tie-breaks and the rank guard are compared), same failure/panic, same variant costs",
